@@ -32,6 +32,9 @@ if str(REPO) not in sys.path:
     sys.path.insert(0, str(REPO))
 os.environ.setdefault(GUARD, '1')
 
+import logging  # noqa: E402
+logging.disable(logging.CRITICAL)   # pjrpc logs every handled exception; the checks observe return values
+
 
 class InfraError(Exception):
     """Something in the machinery (not in pjrpc) failed: exit 2, never a VIOLATION line."""
